@@ -32,6 +32,7 @@ func checkC20(c *Ctx) {
 	c.Rule("C20/R7", "every in-repo fs.Writer.CloseWithError discards: it never publishes the file and, where the file already exists on disk, removes it")
 
 	c.Rule("C20/R9", "a file without benchmark lines fails the upload: the function that stores one file returns success only where that file's record count is known to be non-zero (or returns the count and every caller tests it)")
+	c.Rule("C20/R13", "a record the upload accepts is kept: every path of Upload.InsertRecord to a nil return passes a store into the pending insert arguments")
 	c.Rule("C20/R12", "what is indexed is what is stored, all of it: the indexing reader reads from io.TeeReader(part, file-store writer), and the part is handed over as it came from the multipart reader")
 	c.Rule("C20/R11", "server metadata cannot be overridden by content: every benchmark reader storage/app makes for an uploaded part receives the server's labels through AddLabels on every path before its first Next")
 	c.Rule("C20/R10", "an aborted upload stays invisible without hiding a committed one (same rule as C19/R8): in the upload listing the filter on the per-upload record count comes before every LIMIT, so the hidden rows of failed uploads use up no places")
@@ -42,6 +43,7 @@ func checkC20(c *Ctx) {
 	c.Under("C19/R8", "C20/R10", func() { c19Limit(c, p) })
 	c20ServerLabels(c, p)
 	c20WholePartStored(c, p)
+	c20RecordKept(c, p)
 	if c.Tier == "thorough" && c.override == nil {
 		if p2, err := load(c, loadOpts{tags: "appengine"}, pats...); err == nil {
 			c20Dropped(c, p2)
@@ -1595,6 +1597,34 @@ func c20InsertOnly(c *Ctx, p *Prog) {
 		})
 	}
 	c.Floor(R, "statements inserting into Uploads", n, 1)
+	// the row of an aborted or empty upload is what keeps its ID taken: nothing removes rows from Uploads
+	nStmt := 0
+	for _, fn := range p.Funcs("storage/db") {
+		eachInstr(fn, func(_ *ssa.BasicBlock, in ssa.Instruction) {
+			call, ok := in.(*ssa.Call)
+			if !ok {
+				return
+			}
+			co := calleeObj(&call.Call)
+			if co == nil || co.Pkg() == nil || co.Pkg().Path() != "database/sql" || !(co.Name() == "Prepare" || co.Name() == "Exec" || co.Name() == "Query" || co.Name() == "QueryRow") {
+				return
+			}
+			args := callArgs(&call.Call)
+			if len(args) < 2 {
+				return
+			}
+			for _, s := range stringPieces(args[1]) {
+				nStmt++
+				up := strings.ToUpper(strings.Join(strings.Fields(s), " "))
+				for _, w := range []string{"DELETE FROM UPLOADS", "DROP TABLE UPLOADS", "TRUNCATE TABLE UPLOADS", "TRUNCATE UPLOADS"} {
+					if strings.Contains(up, w) {
+						c.Bad(R, fmt.Sprintf("%s:removes-upload-rows", fnName(fn)), p.pos(call.Pos()), fmt.Sprintf("the statement %q removes rows from Uploads: the row of an aborted (or still empty) upload is what reserves its ID, and the next ID is computed from the rows that exist, so an ID already handed out is handed out again", truncate(s, 80)))
+					}
+				}
+			}
+		})
+	}
+	c.Check(nStmt >= 5, R, "no statement removes Uploads rows", "", fmt.Sprintf("%d statement texts read, none deletes from Uploads", nStmt), fmt.Sprintf("only %d statement texts could be read in storage/db", nStmt))
 }
 
 // edgeMayBe: taking the si-th successor edge of b is compatible with the tracked string value being want (the edge is
